@@ -1825,6 +1825,16 @@ def _install_views():
     E.OFIELDS[("TableData", "data")] = TABLE
 
 
+def _self_of(st):
+    """The iterator's own `self`: bound in the frame of the method under verification (the current frame may be the one of a generator
+    helper the method delegates to with `yield from`)."""
+    for f in st.frames:
+        v = f.env.get("self")
+        if isinstance(v, VExt):
+            return v.t
+    raise ops.Unsupported("no `self` in scope of the loop")
+
+
 def prefix_ext(t, j):
     """Sequence lemma used by the inner-loop invariants (proved once per element sort in lemmas())."""
     return z3.And(z3.Implies(z3.And(j >= 0, j < z3.Length(t)), z3.SubSeq(t, 0, j + 1) == z3.Concat(z3.SubSeq(t, 0, j), z3.Unit(t[j]))),
@@ -1896,7 +1906,7 @@ def _flat_images_contract(cls, icls):
         if t is None:
             return z3.BoolVal(False)
         lc.st.assume(prefix_ext(t, lc.i))
-        return z3.And(lc.st.ghost["YZ"]["img"] == z3.SubSeq(t, 0, lc.i), t == whole(lc.entry.lookup("self").t))
+        return z3.And(lc.st.ghost["YZ"]["img"] == z3.SubSeq(t, 0, lc.i), t == whole(_self_of(lc.entry)))
     tgt = f"{DT}::{cls}.iterate_images"
     C14Executor.VIEW[tgt] = "images"
     return FnContract(target=tgt, params=[("self", p_ext(cls))], generator=True, requires=req,
@@ -1925,7 +1935,7 @@ def _view_contracts(v: ViewSpec, images_only=False):
 
     # ---- iterate_images: the document view is the flattening ----
     def img_outer(lc):
-        me = lc.entry.lookup("self").t
+        me = _self_of(lc.entry)
         lc.st.assume(v.defn(me, lc.i))
         return Y(lc.st, "img") == v.FLATI(me, lc.i)
 
@@ -1949,7 +1959,7 @@ def _view_contracts(v: ViewSpec, images_only=False):
 
     # ---- iterate_tables ----
     def tab_outer(lc):
-        me = lc.entry.lookup("self").t
+        me = _self_of(lc.entry)
         lc.st.assume(v.defn(me, lc.i))
         return Y(lc.st, "tab") == v.FLATT(me, lc.i)
 
@@ -1973,7 +1983,7 @@ def _view_contracts(v: ViewSpec, images_only=False):
 
     # ---- iterate_units: concat(u.get_images()) is the same flattening; unit tables are tables of the same element ----
     def unit_inv(lc):
-        me = lc.entry.lookup("self").t
+        me = _self_of(lc.entry)
         lc.st.assume(v.defn(me, lc.i))
         return Conj([("images", Y(lc.st, "img") == v.FLATI(me, lc.i)), ("count", Y(lc.st, "cnt") == lc.i)])
 
